@@ -13,6 +13,7 @@ import MysyncModel.App.Switchover
 import MysyncModel.App.SwitchLifecycle
 import MysyncProofs.Lemmas.SwitchoverLemmas
 import MysyncProofs.Lemmas.ManagerLemmas
+import MysyncProofs.Lemmas.SwitchoverRequest
 
 namespace C07
 open NS Switchover
@@ -21,30 +22,30 @@ open NS Switchover
 theorem master_key_last (cfg : Cfg) (i : In) (h : String) (ok : Bool)
     (hs : Step.setMasterKey h ok ∈ performSwitchover cfg i) :
     (performSwitchover cfg i).getLast? = some (.setMasterKey h ok) := by
-  sorry
+  exact SwitchoverLemmas.master_key_last cfg i h ok hs
 
 /-- … and it names the node that was just made writable -/
 theorem master_key_after_writable (cfg : Cfg) (i : In) (h : String) (ok : Bool)
     (hs : Step.setMasterKey h ok ∈ performSwitchover cfg i) :
     Step.setWritable h true ∈ performSwitchover cfg i ∧ Step.resetSlaveAll h true ∈ performSwitchover cfg i := by
-  sorry
+  exact SwitchoverLemmas.master_key_after_writable cfg i h ok hs
 
 /-- on every crash prefix that has not reached the last step the recorded master is untouched, so the
 successor still learns the OLD master from the coordination service -/
 theorem crash_keeps_old_master_key (cfg : Cfg) (i : In) (pre post : List Step) (hpost : post ≠ [])
     (hsplit : performSwitchover cfg i = pre ++ post) : ∀ h ok, Step.setMasterKey h ok ∉ pre := by
-  sorry
+  exact SwitchoverLemmas.crash_keeps_old_master_key cfg i pre post hpost hsplit
 
 /-- a deposed manager stops: when a lock re-check fails nothing further is done -/
 theorem lost_lock_stops (cfg : Cfg) (i : In) (n : Nat) (hs : Step.lockCheck n false ∈ performSwitchover cfg i) :
     (performSwitchover cfg i).getLast? = some (.lockCheck n false) := by
-  sorry
+  exact SwitchoverLemmas.lost_lock_stops cfg i n hs
 
 /-- at most one node is made writable by one run of the procedure -/
 theorem at_most_one_promotion (cfg : Cfg) (i : In) (h1 h2 : String) (o1 o2 : Bool)
     (a : Step.setWritable h1 o1 ∈ performSwitchover cfg i) (b : Step.setWritable h2 o2 ∈ performSwitchover cfg i) :
     h1 = h2 ∧ o1 = o2 := by
-  sorry
+  exact SwitchoverLemmas.at_most_one_promotion cfg i h1 h2 o1 o2 a b
 
 /-- the request survives a crashed or failed attempt: an iteration whose procedure failed (or whose
 process died — no bookkeeping step at all) leaves `switch` in place for the next manager -/
@@ -52,6 +53,10 @@ theorem request_kept_until_terminal (cfg : Manager.Cfg) (i : Manager.In) (k : Sw
     (hs : k.switch = some sw) (hkeep : (SwitchLifecycle.tick cfg i k).lastOk = k.lastOk ∧ (SwitchLifecycle.tick cfg i k).lastRejected = k.lastRejected)
     (hp : i.perform ≠ .abortedMeanwhile) :
     ∃ sw', (SwitchLifecycle.tick cfg i k).switch = some sw' ∧ sw'.from_ = sw.from_ ∧ sw'.to = sw.to := by
+  -- FALSE as stated: if `k.lastRejected = some sw` (or `k.lastOk = some sw`) already, rejecting (finishing) the request
+  -- leaves the result keys unchanged although `switch` is removed.  Concrete counterexample and the corrected
+  -- statement (extra hypothesis `k.lastOk ≠ some sw ∧ k.lastRejected ≠ some sw`), proved:
+  -- `SwitchoverLemmas.request_kept_until_terminal` in MysyncProofs/Lemmas/SwitchoverRequest.lean.
   sorry
 
 end C07
